@@ -178,7 +178,7 @@ fn site(cx: &mut CaseCtx, s: u64) {
                 }
             });
             // beyond 2^32 as well: values whose low 32 bits alone would look small
-            for n in [(1usize << 28) - 4, (1 << 28) - 1, 1 << 28, (1 << 28) + 1, 1 << 30, 1 << 32, (1 << 32) + 5, (7 << 32) | 0x1234, (1 << 36) + (1 << 27), usize::MAX - 8, far(&mut r, 1 << 28, 1 << 40), (far(&mut r, 1, 1 << 20) << 32) | far(&mut r, 0, 1 << 27)] {
+            for n in [(1usize << 28) - 4, (1 << 28) - 1, 1 << 28, (1 << 28) + 1, 1 << 30, 1 << 32, (1 << 32) + 5, (7 << 32) | 0x1234, (1 << 36) + (1 << 27), usize::MAX - 8, usize::MAX - 3, usize::MAX - 1, usize::MAX, far(&mut r, 1 << 28, 1 << 40), (far(&mut r, 1, 1 << 20) << 32) | far(&mut r, 0, 1 << 27)] {
                 refuse(cx, name, format!("content length {}", n), || hook(n, true));
             }
         }
